@@ -245,6 +245,20 @@ add('C22', 'exploration',
     'A parent on which a push was refused is not used again (the library closes a stream on a refused action; that is C01/C06 material); '
     'header lists whose validity the statement leaves open (CONNECT, neither :authority nor Host) are counted as undetermined.')
 
+add('C06', 'exploration',
+    'runtime monitoring: bounded exhaustive enumeration of action sequences executed on the real connection (each node on a deep copy of its parent), every reaction compared with the allowed set of an independent RFC 7540 5.1 reference machine',
+    'For each role and each start (plain, h2c-upgraded stream 1) every sequence up to length 4 (quick) / 5 (thorough) over a 31/32-symbol '
+    'alphabet is executed: local send_headers in each message role with/without END_STREAM, send_data, end_stream, reset_stream, push_stream, '
+    'increment_flow_control_window, cleanup of closed streams; received HEADERS in each message role with/without END_STREAM, DATA, RST_STREAM, '
+    'WINDOW_UPDATE, PUSH_PROMISE, naked CONTINUATION, on the focus stream and (reduced set) on the promised stream. The reference machine is '
+    'written from the RFC text (no use of the library transition table) and returns the allowed reactions: local ok/refused; received accept '
+    'with an exact event list, stream error with a code set, connection error with a code set (exactly one GOAWAY with the exception code), or '
+    'ignore. A connection error or refused local action ends a branch. Plus random walks up to length 14. Held/violated on those sequences only; '
+    'exhaustive only with respect to this alphabet and depth.',
+    'Widened cells, each with its source in the module: DATA on closed streams answered by RST_STREAM (CHANGELOG 3.2.0); WINDOW_UPDATE/RST_STREAM on closed '
+    'streams ignored (CHANGELOG 3.1.1); 1xx with END_STREAM or after END_STREAM may be PROTOCOL_ERROR; server DATA before response headers is '
+    'left to C08; a refused local action closing the stream is a known finding (one key).')
+
 NOT_BUILT_REASON = 'check not built yet in this session (planned in DESIGN.md; no verdict claimed)'
 
 def main():
